@@ -654,7 +654,7 @@ def _variable_names(spec):
 @st.composite
 def dataset_spec(draw, convs=ALL_CONVS, max_vars=3, min_vars=1, max_extra=2,
                  modes=("raw", "raw", "decoded"), geom_kwargs=None, var_kwargs=None,
-                 with_vars=True, dim_coords=True):
+                 with_vars=True, dim_coords=True, pick=True):
     conv = draw(st.sampled_from(list(convs)))
     spec = {"conv": conv, "geom": draw(geometry(conv, **(geom_kwargs or {})))}
     spec["extra"] = draw(extra_dims(max_extra)) if with_vars else {}
@@ -679,6 +679,11 @@ def dataset_spec(draw, convs=ALL_CONVS, max_vars=3, min_vars=1, max_extra=2,
         spec["coord_names_order"] = list(draw(st.permutations(["face", "left", "back", "node"])))
     if dim_coords and draw(st.integers(0, 3)) == 0:
         spec["dim_coords"] = draw(dimension_coordinates(spec))
+    free = [d for d in spec["extra"] if any(d in v["dims"] for v in spec["vars"])]
+    if pick and free and draw(st.integers(0, 4)) == 0:
+        # one index of a non-grid dimension picked beforehand, as in ds.isel(time=0)
+        d = draw(st.sampled_from(sorted(free)))
+        spec["pick"] = {d: draw(st.integers(0, spec["extra"][d] - 1))}
     spec["mode"] = draw(st.sampled_from(list(modes)))
     spec["bind"] = draw(st.sampled_from(["auto", "auto", "explicit"]))
     spec["warmup"] = draw(st.lists(st.sampled_from(WARMUP_PROPERTIES), max_size=4, unique=True))
